@@ -189,7 +189,7 @@ CASE = st.tuples(st.lists(st.integers(0, 50), min_size=2, max_size=3), st.boolea
 
 
 def part_pairs(ctx):
-    n = 250 if ctx.tier == "quick" else 2500
+    n = 250 if ctx.tier == "quick" else 6000
     hyp_run(ctx, CASE, lambda c: check(ctx, c), n, name="pairs")
 
 
